@@ -174,3 +174,522 @@ Proof.
   - rewrite !orb_true_r. reflexivity.
   - rewrite (Hs _ _ Hx2), N.eqb_refl, !orb_true_r. reflexivity.
 Qed.
+
+(* ------------------------------------------------------------------------------------------ *)
+(* Part C: the round with a leader that proposes on a quorum of ROUND-CHANGEs                  *)
+
+Section Round.
+Variables (n fifo_ : nat) (ld : nat -> nat) (R : list nat) (r : nat).
+Hypothesis Hn : 1 <= n.
+Notation pp := (pp n fifo_ ld).
+Notation carrier := (carrier ld r).
+Notation q := (quorum n).
+Notation l := (ld r).
+Notation proc_ok := (proc_ok n ld r).
+Notation seen_ok := (seen_ok n fifo_ ld r).
+Notation ginv := (ginv n fifo_ ld R r).
+
+(* While nobody has a value for round r, a delivery produces no broadcast and no decision; the only
+   rule that can produce something is the leader's QRC. *)
+Lemma fresh_cases : forall P i s m o s' outs, pool_ok ld r P -> In m P -> proc_ok P i s ->
+  (forall m, In m P -> carrier (main m) = false) ->
+  fstep (pp i) s (ERecv m CmpOk) o = Some (s', outs) ->
+  decided s = false /\
+  ( (justified (pp i) m (cfr s) = false /\ s' = s /\ outs = [Unjust m])
+  \/ (justified (pp i) m (cfr s) = true /\ s' = s1_of (pp i) s m /\ outs = []
+      /\ existsb (fun rl => rule_eqb rl Nothing || is_dup s rl (rnd (main m))) (rules_of (pp i) (s1_of (pp i) s m) m) = true)
+  \/ (justified (pp i) m (cfr s) = true /\ s' = mark (s1_of (pp i) s m) UnjustQRC (rnd (main m)) /\ outs = [Upon UnjustQRC]
+      /\ existsb (rule_eqb UnjustQRC) (rules_of (pp i) (s1_of (pp i) s m) m) = true)
+  \/ (justified (pp i) m (cfr s) = true /\ ty (main m) = RoundChange /\ rnd (main m) = r /\ l = i
+      /\ is_dup s QRC r = false
+      /\ exists o' outs', apply_rule (pp i) (mark (s1_of (pp i) s m) QRC r) m CmpOk QRC o' = Some (s', outs')
+                          /\ outs = Upon QRC :: outs') ).
+Proof.
+  intros P i s m o s' outs Hp Hm Hs Hnc H.
+  apply fstep_outcome in H. destruct H as [_ [_ H]].
+  pose proof (pr_round _ _ _ _ _ _ Hs) as Hround. pose proof (po_rnd _ _ _ Hp m Hm) as Hle.
+  assert (Hund : decided s = false).
+  { destruct (decided s) eqn:Hd; [|reflexivity]. destruct (pr_decv _ _ _ _ _ _ Hs Hd) as [m0 [M1 [M2 _]]].
+    rewrite (Hnc m0 M1) in M2. discriminate. }
+  split; [exact Hund|].
+  pose proof (Hnc m Hm) as Hcm. unfold GoodRound.carrier in Hcm.
+  destruct H as [Hd|rs Hd Ht|Hd Hj|Hd Hj Hex|rl o' s'' outs' Hd Hj Hex Hdup Ha]; try congruence.
+  - left. auto.
+  - right. left. auto.
+  - pose proof (rules_of_inv _ _ _ _ Hex) as Hr.
+    destruct rl; simpl in Hr; try (simpl in Ha; discriminate).
+    + exfalso. destruct Hr as [Ht Hr]. simpl in Hr. assert (Er : rnd (main m) = r) by lia.
+      pose proof (Hnc m Hm). pose proof (justified_pp_carrier n fifo_ ld r i m _ Ht Er Hj). congruence.
+    + exfalso. destruct Hr as [Ht [Hr _]]. simpl in Hr. rewrite Ht in Hcm. rewrite Hr, Hround, Nat.eqb_refl in Hcm. discriminate.
+    + exfalso. destruct Hr as [Ht [Hr _]]. simpl in Hr. rewrite Ht in Hcm. rewrite Hr, Hround, Nat.eqb_refl in Hcm. discriminate.
+    + right. right. left. apply fire_urc in Ha. destruct Ha as [-> ->]. auto.
+    + exfalso. destruct Hr as [_ Hr]. simpl in Hr. lia.
+    + right. right. right. destruct Hr as [Ht [Hr Hl]]. simpl in Hr. unfold is_leader in Hl. simpl in Hl.
+      apply Nat.eqb_eq in Hl. assert (Er : rnd (main m) = r) by lia. rewrite Er in *.
+      repeat split; auto. eauto.
+    + exfalso. rewrite Hr in Hcm. discriminate.
+Qed.
+
+
+Lemma recv_frame : forall p s m o s' outs, fstep p s (ERecv m CmpOk) o = Some (s', outs) ->
+  input s' = input s /\ cfr s' = cfr s.
+Proof.
+  intros p s m o s' outs H. crush_fstep H; simpl; autorewrite with st; simpl; auto.
+Qed.
+
+Lemma recv_dup_mono : forall P i s m o s' outs, pool_ok ld r P -> In m P -> proc_ok P i s ->
+  fstep (pp i) s (ERecv m CmpOk) o = Some (s', outs) ->
+  forall rl k, is_dup s rl k = true -> is_dup s' rl k = true.
+Proof.
+  intros P i s m o s' outs Hp Hm Hs H rl0 k0 Hk.
+  apply fstep_outcome in H. destruct H as [_ [_ H]].
+  pose proof (pr_round _ _ _ _ _ _ Hs) as Hround. pose proof (po_rnd _ _ _ Hp m Hm) as Hle.
+  destruct H as [Hd|rs Hd Ht|Hd Hj|Hd Hj Hex|rl o' s'' outs' Hd Hj Hex Hdup Ha]; auto.
+  pose proof (rules_of_inv _ _ _ _ Hex) as Hr.
+  assert (Hk2 : is_dup (mark (s1_of (pp i) s m) rl (rnd (main m))) rl0 k0 = true).
+  { rewrite is_dup_mark, is_dup_s1, Hk. apply orb_true_r. }
+  destruct rl; simpl in Hr; try (simpl in Ha; discriminate).
+  - destruct Hr as [Ht Hr]. simpl in Hr.
+    apply fire_jpp in Ha; [|autorewrite with st; simpl; lia]. destruct Ha as [-> _].
+    rewrite is_dup_set_timer', is_dup_mark, Hk2. apply orb_true_r.
+  - apply fire_qp in Ha. destruct Ha as [-> _]. exact Hk2.
+  - destruct Hr as [Ht [Hr _]]. simpl in Hr.
+    apply fire_qc in Ha; [|autorewrite with st; simpl; lia]. destruct Ha as [_ [-> _]]. exact Hk2.
+  - apply fire_urc in Ha. destruct Ha as [-> _]. exact Hk2.
+  - destruct Hr as [_ Hr]. simpl in Hr. lia.
+  - simpl in Ha. destr_hyp Ha; inv_eqs; exact Hk2.
+  - apply fire_jd in Ha; [|autorewrite with st; simpl; pose proof (po_dec _ _ _ Hp m Hm Hr); lia].
+    destruct Ha as [-> _]. exact Hk2.
+Qed.
+
+
+Lemma bufmsgs_s1 : forall p s m x, In x (bufmsgs (buffer (s1_of p s m))) -> In x (bufmsgs (buffer s)) \/ x = m.
+Proof.
+  intros p s m x. simpl. generalize (fifo p). intro k. induction (buffer s) as [|[s0 qq] buf IH]; simpl.
+  - unfold bufmsgs. simpl. rewrite app_nil_r. intro H. unfold lastn in H. apply In_skipn_gr in H.
+    destruct H as [H|[]]. auto.
+  - destruct (s0 =? src (main m)); unfold bufmsgs; simpl; rewrite !in_app_iff.
+    + intros [H|H]; [|tauto]. unfold lastn in H. apply In_skipn_gr in H. apply in_app_or in H.
+      destruct H as [H|[H|[]]]; auto.
+    + intros [H|H]; [tauto|]. apply IH in H. tauto.
+Qed.
+
+Lemma buf_fresh_s1 : forall P s m c, pool_fresh ld r P -> In m P -> justified (pp l) m c = true ->
+  buf_fresh n fifo_ ld r P s -> buf_fresh n fifo_ ld r P (s1_of (pp l) s m).
+Proof.
+  intros P s m c Hpf Hm Hj [B1 B2 B3]. constructor.
+  - intros b Hb Ht. apply flat_s1 in Hb. destruct Hb as [Hb|[Hb|Hb]]; [auto | |].
+    + apply (pf_prep _ _ _ Hpf m b Hm); [left; assumption | assumption].
+    + apply (pf_prep _ _ _ Hpf m b Hm); [right; assumption | assumption].
+  - intros m' b Hm' Hb. apply bufmsgs_s1 in Hm'. destruct Hm' as [Hm'| ->]; [eauto|].
+    apply (pf_nest _ _ _ Hpf m b Hm Hb).
+  - intros m' Hm' Hf. apply bufmsgs_s1 in Hm'. destruct Hm' as [Hm'| ->]; [auto|].
+    split; [|exists m; auto]. apply f_rc_inv in Hf. destruct Hf as [Hf _].
+    unfold justified in Hj. rewrite Hf in Hj. exact Hj.
+Qed.
+
+Lemma pool_ok_add_first : forall P m',
+  pool_ok ld r P -> (forall m, In m P -> carrier (main m) = false) ->
+  rnd (main m') <= r -> ty (main m') <> Decided ->
+  (forall b, In b (just m') -> pc r b -> has_main P b) ->
+  pool_ok ld r (P ++ [m']).
+Proof.
+  intros P m' [H1 H2 H3 H4] Hnc A1 A2 A4. constructor.
+  - intros m Hm. apply in_app_or in Hm. destruct Hm as [Hm|[Hm|[]]]; subst; auto.
+  - intros m Hm. apply in_app_or in Hm. destruct Hm as [Hm|[Hm|[]]]; subst; auto. contradiction.
+  - intros m1 m2 Hm1 Hm2 C1 C2. apply in_app_or in Hm1. apply in_app_or in Hm2.
+    destruct Hm1 as [Hm1|[Hm1|[]]]; destruct Hm2 as [Hm2|[Hm2|[]]]; subst; auto.
+    + rewrite (Hnc _ Hm1) in C1. discriminate.
+    + rewrite (Hnc _ Hm2) in C2. discriminate.
+  - intros m b Hm Hb Hp. apply in_app_or in Hm. destruct Hm as [Hm|[Hm|[]]]; subst.
+    + eapply has_main_mono; [|eapply H4; eauto]. apply incl_appl, incl_refl.
+    + eapply has_main_mono; [|eapply A4; eauto]. apply incl_appl, incl_refl.
+Qed.
+
+
+Lemma justified_rc_cases : forall p m, justified_roundchange p m = true ->
+  is_null (main m) = true
+  \/ (qn p <= length (just m) /\ nodupn (map src (just m)) = true
+      /\ forallb (f_trv Prepare (pr (main m)) (pv (main m))) (just m) = true).
+Proof.
+  intros p m H. unfold justified_roundchange in H. destruct (just m) as [|x ps] eqn:E.
+  - left. exact H.
+  - right. rewrite !andb_true_iff in H. destruct H as [[H1 H2] H3]. apply Nat.leb_le in H1.
+    split; [exact H1|]. split; [exact H2|]. exact H3.
+Qed.
+
+Lemma leader_forced : forall P s m, pool_fresh ld r P -> buf_fresh n fifo_ ld r P s ->
+  q <= nsrc (f_rc r) (flat (buffer s)) -> ty (main m) = RoundChange -> rnd (main m) = r -> round s = r ->
+  rules_of (pp l) s m = [QRC].
+Proof.
+  intros P s m Hpf [B1 B2 B3] Hq Ht Hrd Hround.
+  pose proof (quorum_pos n Hn) as Hq1.
+  assert (Hmain : forall b, In b (flat (buffer s)) -> f_rc r b = true ->
+            exists m', In m' (bufmsgs (buffer s)) /\ main m' = b).
+  { intros b Hb Hf. rewrite flat_bufmsgs in Hb. apply flat_msgs_in in Hb. destruct Hb as [m' [M1 [M2|M2]]]; [eauto|].
+    rewrite (B2 m' b M1 M2) in Hf. discriminate. }
+  destruct (qrc_forced (pp l) (flat (buffer s)) r) as [Hok Hfail]; auto.
+  - intros b Hb Hf. destruct (Hmain b Hb Hf) as [m' [M1 M2]]. subst b.
+    destruct (B3 m' M1 Hf) as [Hj _]. apply justified_rc_cases in Hj. destruct Hj as [Hj|[J1 [J2 J3]]]; [left; exact Hj|].
+    right. etransitivity; [exact J1|]. rewrite <- (nsrc_self _ _ J2 J3). apply nsrc_incl.
+    intros y Hy. rewrite flat_bufmsgs. apply flat_msgs_in. exists m'. auto.
+  - intros b b' Hb Hb' Hf Hf' Hsrc. destruct (Hmain b Hb Hf) as [m1 [M1 M2]]. destruct (Hmain b' Hb' Hf') as [m2 [M3 M4]].
+    subst b b'. destruct (B3 m1 M1 Hf) as [_ [x1 [X1 X2]]]. destruct (B3 m2 M3 Hf') as [_ [x2 [X3 X4]]].
+    rewrite <- X2, <- X4 in *. apply (pf_uniq _ _ _ Hpf x1 x2); auto.
+  - unfold rules_of. rewrite Ht, Hrd, Hround, Nat.ltb_irrefl.
+    assert (E : nsrc (f_rc r) (flat (buffer s)) <? qn (pp l) = false) by (apply Nat.ltb_ge; exact Hq).
+    rewrite E, Hok, Hfail. unfold is_leader. simpl. rewrite Nat.eqb_refl. reflexivity.
+Qed.
+
+
+Lemma qrc_fire_post : forall P s m o' s' outs',
+  pool_fresh ld r P -> In m P -> round s = r ->
+  input s <> 0%N -> cfr s = 0 -> ppj s = PNone -> buf_fresh n fifo_ ld r P s ->
+  justified (pp l) m (cfr s) = true -> rnd (main m) = r ->
+  apply_rule (pp l) (mark (s1_of (pp l) s m) QRC r) m CmpOk QRC o' = Some (s', outs') ->
+  s' = mark (s1_of (pp l) s m) QRC r /\
+  exists v J, outs' = [Bcast (mk PrePrepare l r v 0 0) J]
+    /\ (forall i c, justified (pp i) (mkm (mk PrePrepare l r v 0 0) J) c = true)
+    /\ (forall b, In b J -> In b (flat (buffer (s1_of (pp l) s m)))).
+Proof.
+  intros P s m o' s' outs' Hpf Hm Hround Hin Hcfr Hppj Hbf Hj Hrd Ha.
+  pose proof (quorum_pos n Hn) as Hq1.
+  pose proof (buf_fresh_s1 P s m _ Hpf Hm Hj Hbf) as [B1 _ _].
+  apply fire_qrc in Ha; [| autorewrite with st; exact Hppj | autorewrite with st; exact Hin].
+  destruct Ha as [-> [Hadm [v [-> Hv]]]]. split; [reflexivity|].
+  autorewrite with st in Hadm. rewrite Hrd in Hadm.
+  assert (Hsub : forall b, In b (o_just o') -> In b (flat (buffer (s1_of (pp l) s m)))).
+  { intros b Hb. eapply adm_qrc_sub; eauto. }
+  exists v, (o_just o'). split; [|split; [|exact Hsub]].
+  - simpl. autorewrite with st. simpl. rewrite Hround. reflexivity.
+  - intros i c. unfold justified. simpl ty.
+    apply (qrc_pp_justified (pp i) (flat (buffer (s1_of (pp l) s m))) r (o_just o') v c); auto.
+    + destruct Hv as [[spr [Hs Hne]]|[-> _]]; [|autorewrite with st; exact Hin].
+      destruct (single_true_witness _ _ _ _ Hq1 Hs) as [y [Y1 [Y2 [Y3 Y4]]]]. subst v.
+      apply (B1 y (Hsub y Y1) Y2).
+    + intros spr spv Hs. destruct Hv as [[spr' [Hs' Hne]]|[-> Hall]].
+      * unfold qn in Hs, Hs'. simpl in Hs, Hs'. rewrite Hs in Hs'. inversion Hs'. reflexivity.
+      * exfalso. specialize (Hall spr spv Hs). autorewrite with st in Hall. simpl in Hall. rewrite Hcfr in Hall.
+        destruct (single_true_witness _ _ _ _ Hq1 Hs) as [y [Y1 [Y2 [Y3 Y4]]]].
+        destruct (B1 y (Hsub y Y1) Y2) as [Hpos _]. lia.
+Qed.
+
+
+(* ------------------------------------------------------------------------------------------ *)
+(* The extended invariant                                                                      *)
+
+Definition jrc (m : msg) : bool := justified_roundchange (pp l) m.
+
+(* the leader's "received => done": a quorum of justified ROUND-CHANGE(r) received in the window
+   means the QRC rule of round r has been executed *)
+Definition lseen_ok (s : state) (S : list msg) : Prop :=
+  decided s = false -> q <= nsrc (f_rc r) (map main (filter jrc S)) -> is_dup s QRC r = true.
+
+Record ginv2 (g0 g : gcfg) : Prop := mkg2 {
+  g2_inv : ginv g0 g;
+  g2_lead : leader_ok n fifo_ ld r (pool g) (gst g l);
+  g2_seen : lseen_ok (gst g l) (seen g l)
+}.
+
+Lemma leader_ok_sent_mono : forall P X s, leader_ok n fifo_ ld r P s -> is_dup s QRC r = true ->
+  leader_ok n fifo_ ld r (P ++ X) s.
+Proof.
+  intros P X s [L1 L2 L3 L4] Hd. constructor; auto.
+  - intro H. congruence.
+  - intros _. destruct (L4 Hd) as [ml [M1 M2]]. exists ml. split; [apply in_or_app; auto | exact M2].
+Qed.
+
+Lemma leader_step_sent : forall P s m o s' outs, pool_ok ld r P -> In m P -> proc_ok P l s ->
+  leader_ok n fifo_ ld r P s -> is_dup s QRC r = true ->
+  fstep (pp l) s (ERecv m CmpOk) o = Some (s', outs) ->
+  leader_ok n fifo_ ld r (P ++ bcasts outs) s' /\ is_dup s' QRC r = true.
+Proof.
+  intros P s m o s' outs Hp Hm Hs [L1 L2 L3 L4] Hd H.
+  pose proof (recv_dup_mono _ _ _ _ _ _ _ Hp Hm Hs H QRC r Hd) as Hd'.
+  destruct (recv_frame _ _ _ _ _ _ H) as [F1 F2].
+  split; [|exact Hd']. constructor.
+  - rewrite F1. exact L1.
+  - rewrite F2. exact L2.
+  - intro Hx. congruence.
+  - intros _. destruct (L4 Hd) as [ml [M1 M2]]. exists ml. split; [apply in_or_app; auto | exact M2].
+Qed.
+
+
+Lemma buf_fresh_ext : forall P s s', buffer s' = buffer s -> buf_fresh n fifo_ ld r P s -> buf_fresh n fifo_ ld r P s'.
+Proof. intros P s s' E [B1 B2 B3]. constructor; rewrite E; assumption. Qed.
+
+Lemma jrc_count_snoc : forall S m, f_rc r (main m) && jrc m = false ->
+  nsrc (f_rc r) (map main (filter jrc (S ++ [m]))) = nsrc (f_rc r) (map main (filter jrc S)).
+Proof.
+  intros S m H. rewrite filter_app. simpl. destruct (jrc m) eqn:E.
+  - rewrite map_app. simpl. apply nsrc_snoc_false. rewrite andb_true_r in H. exact H.
+  - rewrite app_nil_r. reflexivity.
+Qed.
+
+Lemma rc_justified : forall i m c, ty (main m) = RoundChange -> justified (pp i) m c = justified_roundchange (pp l) m.
+Proof. intros i m c Ht. unfold justified. rewrite Ht. reflexivity. Qed.
+
+(* a quorum counted over the justified ROUND-CHANGEs seen is a quorum in the buffer *)
+Lemma jrc_count_buffer : forall s0 s S, seen_ok l s0 s S -> decided s = false ->
+  nsrc (f_rc r) (map main (filter jrc S)) <= nsrc (f_rc r) (flat (buffer s)).
+Proof.
+  intros s0 s S Hse Hd. apply nsrc_sub. intros b Hb Hf. apply in_map_iff in Hb. destruct Hb as [m' [E Hm']]. subst b.
+  apply filter_In in Hm'. destruct Hm' as [M1 M2]. apply bufmsgs_flat_main.
+  apply (se_buf _ _ _ _ _ _ _ _ Hse Hd m' M1). apply f_rc_inv in Hf. destruct Hf as [Hf _].
+  rewrite (rc_justified l m' _ Hf). exact M2.
+Qed.
+
+
+Lemma leader_step_quiet : forall P s0 s S m s',
+  pool_ok ld r P -> In m P -> proc_ok P l s -> decided s = false ->
+  leader_ok n fifo_ ld r P s -> is_dup s QRC r = false ->
+  seen_ok l s0 s' (S ++ [m]) -> lseen_ok s S ->
+  ( (justified (pp l) m (cfr s) = false /\ s' = s)
+  \/ (justified (pp l) m (cfr s) = true /\ s' = s1_of (pp l) s m
+      /\ existsb (fun rl => rule_eqb rl Nothing || is_dup s rl (rnd (main m))) (rules_of (pp l) (s1_of (pp l) s m) m) = true)
+  \/ (justified (pp l) m (cfr s) = true /\ s' = mark (s1_of (pp l) s m) UnjustQRC (rnd (main m))
+      /\ existsb (rule_eqb UnjustQRC) (rules_of (pp l) (s1_of (pp l) s m) m) = true) ) ->
+  leader_ok n fifo_ ld r P s' /\ lseen_ok s' (S ++ [m]).
+Proof.
+  intros P s0 s S m s' Hp Hm Hs Hd Hlo Hfr Hse Hls Hcase.
+  pose proof Hlo as [L1 L2 L3 L4]. destruct (L3 Hfr) as [Hppj [Hpf Hbf]].
+  pose proof (pr_round _ _ _ _ _ _ Hs) as Hround.
+  assert (Hdup' : is_dup s' QRC r = false).
+  { destruct Hcase as [[_ ->]|[[_ [-> _]]|[_ [-> _]]]]; auto. rewrite is_dup_mark, is_dup_s1, Hfr. reflexivity. }
+  assert (Hd' : decided s' = false).
+  { destruct Hcase as [[_ ->]|[[_ [-> _]]|[_ [-> _]]]]; auto. unfold decided. autorewrite with st. exact Hd. }
+  split.
+  - destruct Hcase as [[_ ->]|[[Hj [-> _]]|[Hj [-> _]]]]; [exact Hlo | |].
+    + constructor; auto. intros _. split; [exact Hppj|]. split; [exact Hpf|]. eapply buf_fresh_s1; eauto.
+    + constructor; autorewrite with st; auto.
+      * intros _. split; [exact Hppj|]. split; [exact Hpf|].
+        eapply buf_fresh_ext; [|eapply buf_fresh_s1; eauto]. autorewrite with st. reflexivity.
+      * intro Hx. congruence.
+  - intros _ Hcount. destruct (f_rc r (main m) && jrc m) eqn:E.
+    + (* m is a justified ROUND-CHANGE(r): the leader's classification is forced to QRC *)
+      exfalso. apply andb_true_iff in E. destruct E as [Ef Ej]. apply f_rc_inv in Ef. destruct Ef as [Ht Hrd].
+      assert (Hjm : justified (pp l) m (cfr s) = true) by (rewrite (rc_justified l m _ Ht); exact Ej).
+      assert (Hbuf : buffer s' = buffer (s1_of (pp l) s m)).
+      { destruct Hcase as [[Hj _]|[[_ [-> _]]|[_ [-> _]]]]; [congruence | reflexivity | autorewrite with st; reflexivity]. }
+      assert (Hq : q <= nsrc (f_rc r) (flat (buffer (s1_of (pp l) s m)))).
+      { rewrite <- Hbuf. etransitivity; [exact Hcount|]. eapply jrc_count_buffer; eauto. }
+      assert (Hrules : rules_of (pp l) (s1_of (pp l) s m) m = [QRC]).
+      { eapply leader_forced; eauto. eapply buf_fresh_s1; eauto. }
+      destruct Hcase as [[Hj _]|[[_ [_ Hex]]|[_ [_ Hex]]]]; [congruence | |].
+      * rewrite Hrules in Hex. simpl in Hex. rewrite Hrd, Hfr in Hex. discriminate.
+      * rewrite Hrules in Hex. discriminate.
+    + rewrite jrc_count_snoc in Hcount by exact E. rewrite (Hls Hd Hcount) in Hfr. discriminate.
+Qed.
+
+
+Lemma ginv2_fire : forall g0 g m o' s' outs',
+  ginv2 g0 g -> In l R -> In m (pool g) -> is_dup (gst g l) QRC r = false ->
+  decided (gst g l) = false -> justified (pp l) m (cfr (gst g l)) = true ->
+  ty (main m) = RoundChange -> rnd (main m) = r ->
+  apply_rule (pp l) (mark (s1_of (pp l) (gst g l) m) QRC r) m CmpOk QRC o' = Some (s', outs') ->
+  qlen (buffer (gst g0 l)) (src (main m)) + length (filter (from_src (src (main m))) (seen g l ++ [m])) <= fifo_ ->
+  ginv2 g0 (mkg (upd (gst g) l s') (pool g ++ bcasts (Upon QRC :: outs'))
+                (upd (seen g) l (seen g l ++ [m])) (gdecs g ++ decides l (Upon QRC :: outs'))).
+Proof.
+  intros g0 g m o' s' outs' [[G1 G2 G3 G4 G5] Hlo Hls] HlR Hm Hfr Hd Hj Ht Hrd Ha Hfifo.
+  pose proof Hlo as [L1 L2 L3 L4]. destruct (L3 Hfr) as [Hppj [Hpf Hbf]].
+  pose proof (G2 l HlR) as Hs. pose proof (pr_round _ _ _ _ _ _ Hs) as Hround.
+  destruct (qrc_fire_post _ _ _ _ _ _ Hpf Hm Hround L1 L2 Hppj Hbf Hj Hrd Ha) as [-> [v [J [-> [Hjust Hsub]]]]].
+  simpl bcasts. simpl decides. rewrite app_nil_r.
+  set (ml := mkm (mk PrePrepare l r v 0 0) J).
+  set (s1 := s1_of (pp l) (gst g l) m).
+  assert (Hs1 : proc_ok (pool g) l s1) by (apply proc_ok_s1; auto).
+  assert (Hp' : pool_ok ld r (pool g ++ [ml])).
+  { apply pool_ok_add_first; auto.
+    - apply (pf_nocar _ _ _ Hpf).
+    - unfold ml. simpl. discriminate.
+    - unfold ml. simpl. intros b Hb Hpc. apply (pr_buf _ _ _ _ _ _ Hs1 b (Hsub b Hb) Hpc). }
+  assert (Hlen : qlen (buffer (gst g l)) (src (main m)) < fifo_).
+  { pose proof (se_q _ _ _ _ _ _ _ _ (G3 l HlR) (src (main m))) as Hq. rewrite filter_snoc_len in Hfifo.
+    unfold from_src at 2 in Hfifo. rewrite Nat.eqb_refl in Hfifo. lia. }
+  assert (Hdupn : is_dup (mark s1 QRC r) QRC r = true).
+  { rewrite is_dup_mark, rule_eqb_refl, Nat.eqb_refl. reflexivity. }
+  constructor; [constructor|constructor|]; simpl.
+  - exact Hp'.
+  - intros j Hj'. destruct (Nat.eq_dec j l) as [->|Hne].
+    + rewrite upd_same. apply proc_ok_mark; try discriminate. apply proc_ok_s1; [exact Hp' | apply in_or_app; auto |].
+      eapply proc_ok_mono; [|exact Hs]. apply incl_appl, incl_refl.
+    + rewrite upd_other by assumption. eapply proc_ok_mono; [|apply G2; assumption]. apply incl_appl, incl_refl.
+  - intros j Hj'. destruct (Nat.eq_dec j l) as [->|Hne].
+    + rewrite !upd_same. eapply seen_buffered; eauto; try (autorewrite with st; reflexivity); try congruence.
+      all: try (intros rl k Hk; rewrite is_dup_mark, is_dup_s1, Hk; apply orb_true_r).
+    + rewrite !upd_other by assumption. apply G3. assumption.
+  - intros j x k Hin. destruct (G4 j x k Hin) as [E [m0 [M1 M2]]]. split; [exact E|]. exists m0.
+    split; [apply in_or_app; auto | exact M2].
+  - intros j Hj' Hdj. destruct (Nat.eq_dec j l) as [->|Hne].
+    + rewrite upd_same in Hdj. unfold decided in Hdj. autorewrite with st in Hdj. simpl in Hdj.
+      fold (decided (gst g l)) in Hdj. congruence.
+    + rewrite upd_other in Hdj by assumption. auto.
+  - rewrite upd_same. autorewrite with st. simpl. exact L1.
+  - rewrite upd_same. autorewrite with st. simpl. exact L2.
+  - rewrite upd_same. intro Hx. congruence.
+  - rewrite upd_same. intros _. exists ml. split; [apply in_or_app; right; left; reflexivity|].
+    split; [reflexivity|]. split; [reflexivity|]. exact Hjust.
+  - rewrite !upd_same. intros _ _. exact Hdupn.
+Qed.
+
+
+Lemma ginv2_deliver : forall g0 g i m o s' outs,
+  ginv2 g0 g -> In l R -> (forall j, In j R -> decided (gst g0 j) = false) ->
+  In i R -> In m (pool g) ->
+  fstep (pp i) (gst g i) (ERecv m CmpOk) o = Some (s', outs) ->
+  qlen (buffer (gst g0 i)) (src (main m)) + length (filter (from_src (src (main m))) (seen g i ++ [m])) <= fifo_ ->
+  ginv2 g0 (mkg (upd (gst g) i s') (pool g ++ bcasts outs) (upd (seen g) i (seen g i ++ [m])) (gdecs g ++ decides i outs)).
+Proof.
+  intros g0 g i m o s' outs Hinv HlR Hund Hi Hm H Hfifo.
+  pose proof Hinv as [Hg Hlo Hls].
+  pose proof (gi_pool _ _ _ _ _ _ _ Hg) as Hp. pose proof (gi_proc _ _ _ _ _ _ _ Hg i Hi) as Hs.
+  pose proof (pr_round _ _ _ _ _ _ Hs) as Hround.
+  destruct (is_dup (gst g l) QRC r) eqn:Eq.
+  - (* the leader has proposed *)
+    assert (Hnq : forall outs', outs <> Upon QRC :: outs').
+    { eapply no_qrc_out; [exact H|]. intro Hx. apply rules_of_inv in Hx. simpl in Hx. destruct Hx as [_ [Hx1 Hx2]].
+      unfold is_leader in Hx2. simpl in Hx2. apply Nat.eqb_eq in Hx2.
+      assert (Er : rnd (main m) = r) by congruence. rewrite Er in Hx2. rewrite Er. rewrite <- Hx2. exact Eq. }
+    pose proof (ginv_deliver n fifo_ ld R r Hn g0 g i m o s' outs Hg Hund Hi Hm H Hnq Hfifo) as Hg'.
+    destruct (Nat.eq_dec i l) as [->|Hne].
+    + destruct (leader_step_sent _ _ _ _ _ _ Hp Hm Hs Hlo Eq H) as [Hlo' Hdup'].
+      constructor; simpl; rewrite ?upd_same; auto. intros _ _. exact Hdup'.
+    + constructor; simpl; rewrite ?upd_other by auto; auto. apply leader_ok_sent_mono; auto.
+  - (* nobody has a value yet *)
+    destruct (lo_fresh _ _ _ _ _ _ Hlo Eq) as [Hppj [Hpf Hbf]].
+    destruct (fresh_cases _ _ _ _ _ _ _ Hp Hm Hs (pf_nocar _ _ _ Hpf) H) as [Hd Hcase].
+    destruct Hcase as [C|[C|[C|C]]].
+    4: { destruct C as [Hj [Ht [Hrd [Hl [_ [o' [outs' [Ha ->]]]]]]]]. subst i.
+         eapply ginv2_fire; eauto. }
+    1: destruct C as [Cj [Cs Co]].
+    2: destruct C as [Cj [Cs [Co Cx]]].
+    3: destruct C as [Cj [Cs [Co Cx]]].
+    all: assert (Hnq : forall outs', outs <> Upon QRC :: outs') by (intros outs' E; rewrite Co in E; discriminate).
+    all: pose proof (ginv_deliver n fifo_ ld R r Hn g0 g i m o s' outs Hg Hund Hi Hm H Hnq Hfifo) as Hg'.
+    all: assert (Hb : bcasts outs = []) by (rewrite Co; reflexivity).
+    all: rewrite Hb in *; rewrite app_nil_r in *.
+    all: destruct (Nat.eq_dec i l) as [->|Hne];
+      [| constructor; simpl; rewrite ?upd_other by auto; auto].
+    all: pose proof (gi_seen _ _ _ _ _ _ _ Hg' l HlR) as Hse; simpl in Hse; rewrite !upd_same in Hse.
+    all: assert (Hq : leader_ok n fifo_ ld r (pool g) s' /\ lseen_ok s' (seen g l ++ [m]))
+           by (eapply leader_step_quiet; eauto;
+               first [left; solve [auto] | right; left; solve [auto] | right; right; solve [auto]]).
+    all: destruct Hq as [Q1 Q2]; constructor; simpl; rewrite ?upd_same; auto.
+Qed.
+
+
+Lemma ginv2_steps : forall g0 g, gsteps n fifo_ ld R g0 g -> fifo_ok fifo_ R g0 g ->
+  ginv2 g0 g0 -> In l R -> (forall j, In j R -> decided (gst g0 j) = false) ->
+  ginv2 g0 g /\ incl (pool g0) (pool g).
+Proof.
+  intros g0 g Hs. induction Hs as [g|g0 g1 g2 Hs IH Hst]; intros Hf Hinv HlR Hund.
+  - split; [assumption | apply incl_refl].
+  - assert (Hf1 : fifo_ok fifo_ R g0 g1) by (eapply fifo_ok_step; eauto).
+    destruct (IH Hf1 Hinv HlR Hund) as [I1 I3].
+    destruct Hst as [g i m o s' outs Hi Hm H]. split.
+    + eapply ginv2_deliver; eauto.
+      specialize (Hf i (src (main m)) Hi). simpl in Hf. rewrite upd_same in Hf. exact Hf.
+    + simpl. apply incl_appl. exact I3.
+Qed.
+
+Theorem good_round_qrc : forall g0 g,
+  NoDup R -> q <= length R -> In l R ->
+  pool_ok ld r (pool g0) ->
+  (forall i, In i R -> start_ok r (pool g0) i (gst g0 i)) ->
+  leader_ok n fifo_ ld r (pool g0) (gst g0 l) ->
+  rcs_in_pool n fifo_ ld r R (pool g0) ->
+  (forall i, In i R -> seen g0 i = []) -> gdecs g0 = [] ->
+  gsteps n fifo_ ld R g0 g -> delivered_all R g -> fifo_ok fifo_ R g0 g ->
+  exists v, (forall i, In i R -> exists k, In (i, v, k) (gdecs g))
+            /\ (forall i x k, In (i, x, k) (gdecs g) -> x = v /\ k = r).
+Proof.
+  intros g0 g Hnd Hq HlR Hp Hst Hlo Hrcs Hseen Hdecs Hsteps Hdel Hfifo.
+  pose proof (quorum_pos n Hn) as Hq1.
+  pose proof (ginv_start n fifo_ ld R r Hn g0 Hp Hst Hseen Hdecs) as Hinv0.
+  assert (Hund : forall j, In j R -> decided (gst g0 j) = false) by (intros j Hj; apply (so_undecided _ _ _ _ (Hst j Hj))).
+  assert (Hinv20 : ginv2 g0 g0).
+  { constructor; auto. intros _ Hc. rewrite (Hseen l HlR) in Hc. unfold nsrc in Hc. simpl in Hc. lia. }
+  destruct (ginv2_steps g0 g Hsteps Hfifo Hinv20 HlR Hund) as [[Hinv Hlo' Hls] Hincl].
+  assert (Hdup : is_dup (gst g l) QRC r = true).
+  { destruct (is_dup (gst g l) QRC r) eqn:Eq; [reflexivity|]. exfalso.
+    destruct (lo_fresh _ _ _ _ _ _ Hlo' Eq) as [_ [Hpf _]].
+    assert (Hdl : decided (gst g l) = false).
+    { destruct (decided (gst g l)) eqn:Hd; [|reflexivity].
+      destruct (pr_decv _ _ _ _ _ _ (gi_proc _ _ _ _ _ _ _ Hinv l HlR) Hd) as [m0 [M1 [M2 _]]].
+      rewrite (pf_nocar _ _ _ Hpf m0 M1) in M2. discriminate. }
+    assert (Hc : q <= nsrc (f_rc r) (map main (filter jrc (seen g l)))).
+    { etransitivity; [exact Hq|]. apply nsrc_covers; [exact Hnd|]. intros j Hj.
+      destruct (Hrcs j Hj) as [m [M1 [M2 [M3 M4]]]]. exists (main m). split; [|auto].
+      apply in_map. apply filter_In. split; [|exact M4]. apply Hdel; auto. }
+    rewrite (Hls Hdl Hc) in Eq. discriminate. }
+  destruct (lo_sent _ _ _ _ _ _ Hlo' Hdup) as [ml [M1 [M2 [M3 M4]]]].
+  pose proof (justified_pp_carrier n fifo_ ld r 0 ml 0 M2 M3 (M4 0 0)) as Hcar.
+  exists (val (main ml)).
+  assert (Hvals : forall i x k, In (i, x, k) (gdecs g) -> x = val (main ml) /\ k = r).
+  { intros i x k Hin. destruct (gi_decs _ _ _ _ _ _ _ Hinv i x k Hin) as [E [m0 [N1 [N2 N3]]]]. split; [|exact E].
+    rewrite <- N3. apply (po_val _ _ _ (gi_pool _ _ _ _ _ _ _ Hinv)); auto. }
+  split; [|exact Hvals].
+  intros i Hi.
+  assert (Hd : decided (gst g i) = true).
+  { eapply (all_decided n fifo_ ld R r g0 g ml); eauto. }
+  destruct (gi_decd _ _ _ _ _ _ _ Hinv i Hi Hd) as [x [k Hx]]. destruct (Hvals i x k Hx) as [-> _]. exists k. exact Hx.
+Qed.
+
+End Round.
+
+(* ------------------------------------------------------------------------------------------ *)
+(* The two cases together                                                                      *)
+
+(* what the leader of the round has done / is able to do *)
+Definition leader_case (n fifo_ : nat) (ld : nat -> nat) (R : list nat) (r : nat) (g0 : gcfg) : Prop :=
+  (* round 1: the leader has its input value, i.e. its PRE-PREPARE(1) is in the pool (the model
+     broadcasts it in the very step that receives the input); nobody sends ROUND-CHANGE(1) *)
+  (r = 1 /\ norc 1 g0 /\ exists v J, v <> 0%N /\ In (mkm (mk PrePrepare (ld 1) 1 v 0 0) J) (pool g0))
+  \/
+  (* any round: the leader has its input and every member of R has broadcast ROUND-CHANGE(r) *)
+  (leader_ok n fifo_ ld r (pool g0) (gst g0 (ld r)) /\ rcs_in_pool n fifo_ ld r R (pool g0)).
+
+Theorem good_round_decides : forall n fifo_ ld R r g0 g,
+  1 <= n -> NoDup R -> quorum n <= length R -> In (ld r) R ->
+  pool_ok ld r (pool g0) ->
+  (forall i, In i R -> start_ok r (pool g0) i (gst g0 i)) ->
+  leader_case n fifo_ ld R r g0 ->
+  (forall i, In i R -> seen g0 i = []) -> gdecs g0 = [] ->
+  gsteps n fifo_ ld R g0 g -> delivered_all R g -> fifo_ok fifo_ R g0 g ->
+  exists v, (forall i, In i R -> exists k, In (i, v, k) (gdecs g))
+            /\ (forall i x k, In (i, x, k) (gdecs g) -> x = v /\ k = r).
+Proof.
+  intros n fifo_ ld R r g0 g Hn Hnd Hq HlR Hp Hst Hcase Hseen Hdecs Hsteps Hdel Hfifo.
+  destruct Hcase as [[-> [Hnorc [v [J [Hv Hin]]]]]|[Hlo Hrcs]].
+  - exists v. eapply good_round_decides_r1; eauto.
+  - eapply good_round_qrc; eauto.
+Qed.
+
+(* ------------------------------------------------------------------------------------------ *)
+(* Reachable-state fact used in [buf_fresh]                                                    *)
+
+Definition bufj_fact (p : params) (s : state) : Prop :=
+  forall m, In m (bufmsgs (buffer s)) -> ty (main m) = RoundChange -> justified_roundchange p m = true.
+
+Lemma bufj_fact_fstep : forall p s e o s' outs, bufj_fact p s -> fstep p s e o = Some (s', outs) -> bufj_fact p s'.
+Proof.
+  intros p s e o s' outs Hs H. unfold bufj_fact in *. destruct e.
+  - crush_fstep H; simpl; autorewrite with st; simpl; auto.
+  - crush_fstep H; simpl; autorewrite with st; simpl; auto.
+  - crush_fstep H; simpl; autorewrite with st; simpl; auto.
+    all: intros m0 Hm0 Ht; apply (bufmsgs_s1 0 (fun x => x) p s m m0) in Hm0; destruct Hm0 as [Hm0| ->]; [auto|];
+      apply negb_false_iff in Heqb1; unfold justified in Heqb1; rewrite Ht in Heqb1; exact Heqb1.
+  - crush_fstep H; simpl; autorewrite with st; simpl; auto.
+Qed.
+
+(* reachable-state fact behind [buf_fresh]: a buffered ROUND-CHANGE passed isJustifiedRoundChange *)
+Theorem run_buffer_rc_justified : forall p ls s, run p init ls = Some s ->
+  forall m, In m (bufmsgs (buffer s)) -> ty (main m) = RoundChange -> justified_roundchange p m = true.
+Proof.
+  intros p ls s H. change (bufj_fact p s).
+  eapply (run_invariant p (bufj_fact p)); [| |exact H].
+  - intros. eapply bufj_fact_fstep; eassumption.
+  - unfold bufj_fact. simpl. intros m Hm. destruct Hm.
+Qed.
+
